@@ -1,4 +1,207 @@
-import EE.Model.Program
+import EE.Props.C02
+import EE.Props.C10
+import EE.Lemmas.Layout
+/-! # C11 — whitespace and redundant parentheses never change the parse
+
+Two layers, as in the code. **Parentheses** are the parser's business: `ParenExt c c'` says `c'` is
+`c` with any number of extra parentheses around any of its subexpressions (`Spec/Cst`: a `CST` is
+the expression as written); `extra_parens_same_tree` shows the parser returns the same tree.
+**Whitespace** is the tokenizer's business: see the second half. -/
 namespace EE.Props.C11
-theorem placeholder : True := trivial
+open EE EE.Spec EE.Spec.CST EE.Props.C02
+
+mutual
+/-- `c'` is `c` with extra parentheses: around the whole (`wrap`, any number of times) and/or,
+recursively, around any subexpressions. -/
+inductive ParenExt : CST → CST → Prop
+  | wrap {c c' : CST} : ParenExt c c' → ParenExt c (.paren c')
+  | atom (a : Atom) : ParenExt (.atom a) (.atom a)
+  | paren {c c' : CST} : ParenExt c c' → ParenExt (.paren c) (.paren c')
+  | unary (o : Name) {c c' : CST} : ParenExt c c' → ParenExt (.unary o c) (.unary o c')
+  | postfix (o : Name) {c c' : CST} : ParenExt c c' → ParenExt (.postfix c o) (.postfix c' o)
+  | call (n : Name) {a a' : CList} : ParenExtL a a' → ParenExt (.call n a) (.call n a')
+  | list {a a' : CList} : ParenExtL a a' → ParenExt (.list a) (.list a')
+  | map {a a' : CMap} : ParenExtM a a' → ParenExt (.map a) (.map a')
+  | bin (nt : Bool) (o : Name) {l l' r r' : CST} : ParenExt l l' → ParenExt r r' → ParenExt (.bin nt o l r) (.bin nt o l' r')
+  | tern {c c' a a' b b' : CST} : ParenExt c c' → ParenExt a a' → ParenExt b b' → ParenExt (.tern c a b) (.tern c' a' b')
+inductive ParenExtL : CList → CList → Prop
+  | nil : ParenExtL .nil .nil
+  | cons {c c' : CST} {r r' : CList} : ParenExt c c' → ParenExtL r r' → ParenExtL (.cons c r) (.cons c' r')
+inductive ParenExtM : CMap → CMap → Prop
+  | nil : ParenExtM .nil .nil
+  | cons {k k' v v' : CST} {r r' : CMap} : ParenExt k k' → ParenExt v v' → ParenExtM r r' → ParenExtM (.cons k v r) (.cons k' v' r')
+end
+
+/-- Extra parentheses do not change what kind of operand an expression is — except that it becomes
+a parenthesised one, which is allowed everywhere. -/
+theorem ParenExt.shape {c c' : CST} (h : ParenExt c c') :
+    (c.isTern = false → c'.isTern = false) ∧ (∀ o', c'.root? = some o' → c.root? = some o') ∧
+    (c.isPrimary = true → c'.isPrimary = true) ∧ (c.postfixable = true → c'.postfixable = true) := by
+  cases h <;> simp [isTern, root?, isPrimary, postfixable]
+
+mutual
+theorem ParenExt.strip_eq : ∀ {c c' : CST}, ParenExt c c' → c'.strip = c.strip
+  | _, _, .wrap h => by simp only [CST.strip]; exact h.strip_eq
+  | _, _, .atom _ => rfl
+  | _, _, .paren h => by simp only [CST.strip]; exact h.strip_eq
+  | _, _, .unary _ h => by simp only [CST.strip, h.strip_eq]
+  | _, _, .postfix _ h => by simp only [CST.strip, h.strip_eq]
+  | _, _, .call _ h => by simp only [CST.strip, h.strip_eq]
+  | _, _, .list h => by simp only [CST.strip, h.strip_eq]
+  | _, _, .map h => by simp only [CST.strip, h.strip_eq]
+  | _, _, .bin _ _ hl hr => by simp only [CST.strip, hl.strip_eq, hr.strip_eq]
+  | _, _, .tern hc ha hb => by simp only [CST.strip, hc.strip_eq, ha.strip_eq, hb.strip_eq]
+theorem ParenExtL.strip_eq : ∀ {a a' : CList}, ParenExtL a a' → a'.strip = a.strip
+  | _, _, .nil => rfl
+  | _, _, .cons h hr => by simp only [CList.strip, h.strip_eq, hr.strip_eq]
+theorem ParenExtM.strip_eq : ∀ {a a' : CMap}, ParenExtM a a' → a'.strip = a.strip
+  | _, _, .nil => rfl
+  | _, _, .cons hk hv hr => by simp only [CMap.strip, hk.strip_eq, hv.strip_eq, hr.strip_eq]
+end
+
+mutual
+theorem ParenExt.canon {regs : Regs} : ∀ {c c' : CST}, ParenExt c c' → Canon regs c → Canon regs c'
+  | _, _, .wrap h, hc => h.canon hc
+  | _, _, .atom _, _ => trivial
+  | _, _, .paren h, hc => h.canon hc
+  | _, _, .unary _ h, hc => ⟨hc.1, h.shape.2.2.1 hc.2.1, h.canon hc.2.2⟩
+  | _, _, .postfix _ h, hc => ⟨hc.1, h.shape.2.2.2 hc.2.1, h.canon hc.2.2⟩
+  | _, _, .call _ h, hc => h.canon hc
+  | _, _, .list h, hc => h.canon hc
+  | _, _, .map h, hc => h.canon hc
+  | _, _, .bin _ _ hl hr, hc =>
+    ⟨hc.1, hl.canon hc.2.1, hr.canon hc.2.2.1, hl.shape.1 hc.2.2.2.1, hr.shape.1 hc.2.2.2.2.1,
+      fun o' e => hc.2.2.2.2.2.1 o' (hl.shape.2.1 o' e), fun o' e => hc.2.2.2.2.2.2 o' (hr.shape.2.1 o' e)⟩
+  | _, _, .tern h ha hb, hc => ⟨h.canon hc.1, h.shape.1 hc.2.1, ha.canon hc.2.2.1, hb.canon hc.2.2.2⟩
+theorem ParenExtL.canon {regs : Regs} : ∀ {a a' : CList}, ParenExtL a a' → CanonList regs a → CanonList regs a'
+  | _, _, .nil, _ => trivial
+  | _, _, .cons h hr, hc => ⟨h.canon hc.1, hr.canon hc.2⟩
+theorem ParenExtM.canon {regs : Regs} : ∀ {a a' : CMap}, ParenExtM a a' → CanonMap regs a → CanonMap regs a'
+  | _, _, .nil, _ => trivial
+  | _, _, .cons hk hv hr, hc => ⟨hk.canon hc.1, hv.canon hc.2.1, hr.canon hc.2.2⟩
+end
+
+/-- **Redundant parentheses never change the parse**: wrap any subexpressions of a canonically
+written expression in any number of extra parentheses — the parser returns the same tree (as long
+as the result still nests within `MAX_DEPTH`; beyond it the parser reports `NestingTooDeep`, C01). -/
+theorem extra_parens_same_tree (regs : Regs) (tb : TableOK regs) (lim : Nat) (c c' : CST) (hc : Canon regs c)
+    (h : ParenExt c c') (hf : Fits lim c) (hf' : Fits lim c') :
+    parseTokens regs lim c'.flatten = parseTokens regs lim c.flatten := by
+  rw [groups_as_written regs tb lim c hc hf, groups_as_written regs tb lim c' (h.canon hc) hf', h.strip_eq]
+
+inductive ParenExtP : List CST → List CST → Prop
+  | nil : ParenExtP [] []
+  | cons {c c' : CST} {r r' : List CST} : ParenExt c c' → ParenExtP r r' → ParenExtP (c :: r) (c' :: r')
+
+theorem ParenExtP.strip_eq : ∀ {cs cs' : List CST}, ParenExtP cs cs' → cs'.map CST.strip = cs.map CST.strip
+  | _, _, .nil => rfl
+  | _, _, .cons h hr => by simp only [List.map_cons, h.strip_eq, hr.strip_eq]
+
+theorem ParenExtP.canon {regs : Regs} {lim : Nat} : ∀ {cs cs' : List CST}, ParenExtP cs cs' → (∀ c ∈ cs, Canon regs c ∧ Fits lim c) →
+    (∀ c ∈ cs', Fits lim c) → ∀ c ∈ cs', Canon regs c ∧ Fits lim c
+  | _, _, .nil, _, _ => by intro c h; cases h
+  | _, _, .cons h hr, hcs, hfs => by
+    intro c hc
+    simp only [List.mem_cons] at hc
+    rcases hc with rfl | hc
+    · exact ⟨h.canon (hcs _ (by simp)).1, hfs _ (by simp)⟩
+    · exact hr.canon (fun x hx => hcs x (by simp [hx])) (fun x hx => hfs x (by simp [hx])) c hc
+
+/-- … for whole programs (`;`-separated statements), statement by statement. -/
+theorem extra_parens_same_program (regs : Regs) (tb : TableOK regs) (lim : Nat) (hl : 1 ≤ lim) (cs cs' : List CST)
+    (hcs : ∀ c ∈ cs, Canon regs c ∧ Fits lim c) (hfs' : ∀ c ∈ cs', Fits lim c) (h : ParenExtP cs cs')
+    (hh : AST.heightList (cs.map CST.strip) + 1 ≤ lim) :
+    parseTokens regs lim (flattenProg cs') = parseTokens regs lim (flattenProg cs) := by
+  rw [program_as_written regs tb lim hl cs hcs hh,
+    program_as_written regs tb lim hl cs' (h.canon hcs hfs') (by rw [h.strip_eq]; exact hh), h.strip_eq]
+
+
+/-! ## whitespace
+
+`Relayout regs s s'` (`Lemmas/Layout`): `s'` has the same token texts as `s`, in the same order;
+before, between and after them stands arbitrary white space (`' '`, tab, CR, LF), at least some
+wherever `s` has some. Every accepted input has such a decomposition (`accepted_has_layout`), so
+the relation covers "adding white space between any two tokens" and "changing its amount where
+some exists" for every accepted program; white space inside a string literal is part of a token
+text and therefore never touched. `NameOK` is the property's "names are not operator words". -/
+
+/-- The tokenizer reads the same tokens from both layouts. -/
+theorem layout_same_tokens (regs : Regs) (env : LexEnv regs) (s s' : Text) (h : Relayout regs s s') (toks : List SpTok)
+    (ht : tokenize regs s = .ok toks) (hn : ∀ t ∈ toks, NameOK regs t.tok) :
+    ∃ toks', tokenize regs s' = .ok toks' ∧ toks'.map (·.tok) = toks.map (·.tok) :=
+  relayout_tokens regs env h _ 0 toks ht hn _ 0 (Nat.le_refl _)
+
+/-- **Whitespace never changes the parse.** -/
+theorem layout_same_parse (regs : Regs) (env : LexEnv regs) (s s' : Text) (h : Relayout regs s s') (toks : List SpTok)
+    (ht : tokenize regs s = .ok toks) (hn : ∀ t ∈ toks, NameOK regs t.tok) :
+    parseProgram regs s' = parseProgram regs s := by
+  obtain ⟨toks', ht', hmap⟩ := layout_same_tokens regs env s s' h toks ht hn
+  unfold parseProgram
+  rw [ht, ht']
+  simp only [Res.bind_ok, hmap]
+
+/-- Every input the tokenizer accepts is laid out as token texts separated by white space, so
+`Relayout s ·` describes all its re-layouts. -/
+theorem accepted_has_layout (regs : Regs) (s : Text) (toks : List SpTok) (ht : tokenize regs s = .ok toks) : Relayout regs s s :=
+  relayout_refl regs _ s 0 toks ht
+
+/-- White space only: both inputs are empty programs. -/
+theorem blank_inputs (regs : Regs) (g g' : Text) (hg : ∀ x ∈ g, isWs x = true) (hg' : ∀ x ∈ g', isWs x = true) :
+    Relayout regs g g' := Relayout.done hg hg'
+
+/-- More (or other) white space in front of an accepted input. -/
+theorem leading_whitespace (regs : Regs) (env : LexEnv regs) (s g : Text) (toks : List SpTok)
+    (ht : tokenize regs s = .ok toks) (hn : ∀ t ∈ toks, NameOK regs t.tok) (hg : ∀ x ∈ g, isWs x = true) :
+    parseProgram regs (g ++ s) = parseProgram regs s := by
+  exact layout_same_parse regs env s (g ++ s) ((accepted_has_layout regs s toks ht).prepend hg) toks ht hn
+
+/-- The built-in operator names satisfy the assumptions: no white space in them, word operators are
+plain words, `true`/`false` are not operators. -/
+theorem builtin_lexEnv : LexEnv Regs.builtin where
+  opsNoWs := by
+    intro n h
+    rw [EE.Props.C10.builtin_isOp_iff] at h
+    have hall : ∀ n ∈ EE.Tie.allOps, ∀ c ∈ n, isWs c = false := by decide
+    exact hall n h
+  wordOpsPlain := by
+    intro c n h hs
+    rw [EE.Props.C10.builtin_isOp_iff] at h
+    have hall : ∀ m ∈ EE.Tie.allOps, (match m with | c :: n => isSpecialStart c || n.all isParamCh | [] => true) = true := by decide
+    have := hall _ h
+    simp only [hs, Bool.false_or, List.all_eq_true] at this
+    exact this
+  boolsNotOps := by decide
+
+
+/-! ## non-vacuity -/
+
+theorem nogap {c : Char} {r rest' : Text} (h : isWs c = false) :
+    (∃ y r0, c :: r = y :: r0 ∧ isWs y = true) → ∃ y' r', rest' = y' :: r' ∧ isWs y' = true := by
+  intro ⟨y, r0, e, hw⟩
+  simp only [List.cons.injEq] at e
+  rw [← e.1, h] at hw; cases hw
+theorem nogap_nil {rest' : Text} :
+    (∃ y r0, ([] : Text) = y :: r0 ∧ isWs y = true) → ∃ y' r', rest' = y' :: r' ∧ isWs y' = true := by
+  intro ⟨y, r0, e, hw⟩; cases e
+
+/-- The hypotheses are satisfiable on the property's own example: `f(x)` and ` f (⇥x ) ` (a space before
+the call parenthesis, a tab, trailing blanks) are re-layouts of each other … -/
+theorem example_relayout : Relayout Regs.builtin "f(x)".toList " f (\tx ) ".toList := by
+  have h5 : Relayout Regs.builtin [] [' '] := Relayout.done (by decide) (by decide)
+  have h2 := Relayout.tok (regs := Regs.builtin) (g := []) (g' := [' ']) (c := ')') (kt := []) (s := 0) (t := ⟨.delim .closeParen, 0, 1⟩)
+    (by decide) (by decide) (by decide) rfl nogap_nil h5
+  have h1 := Relayout.tok (regs := Regs.builtin) (g := []) (g' := ['\t']) (c := 'x') (kt := []) (s := 0) (t := ⟨.ref ['x'], 0, 1⟩)
+    (by decide) (by decide) (by decide) rfl (nogap (by decide)) h2
+  have h0 := Relayout.tok (regs := Regs.builtin) (g := []) (g' := [' ']) (c := '(') (kt := []) (s := 0) (t := ⟨.delim .openParen, 0, 1⟩)
+    (by decide) (by decide) (by decide) rfl (nogap (by decide)) h1
+  have hf := Relayout.tok (regs := Regs.builtin) (g := []) (g' := [' ']) (c := 'f') (kt := []) (s := 0) (t := ⟨.func ['f'], 0, 1⟩)
+    (by decide) (by decide) (by decide) rfl (nogap (by decide)) h0
+  exact hf
+
+/-- … so they parse to the same tree (through the theorem, not by running the model). -/
+theorem example_same_parse (toks : List SpTok) (ht : tokenize Regs.builtin "f(x)".toList = .ok toks)
+    (hn : ∀ t ∈ toks, NameOK Regs.builtin t.tok) :
+    parseProgram Regs.builtin " f (\tx ) ".toList = parseProgram Regs.builtin "f(x)".toList :=
+  layout_same_parse _ builtin_lexEnv _ _ example_relayout toks ht hn
+
 end EE.Props.C11
